@@ -40,7 +40,7 @@ func TestVerifReplayC20(t *testing.T) {
 	for _, path := range []string{"", "a.proto", "dir/report.proto", "x/top.proto"} {
 		for _, line := range []int{0, 3} {
 			for _, col := range []int{0, 7} {
-				for _, msg := range []string{"", "msg with \"quote\"", "m"} {
+				for _, msg := range []string{"", "msg with \"quote\"", "m", "two\nlines", "first line\n::error file=other.proto,line=1::injected", "100% \r\n done"} {
 					for _, plugin := range []string{"", "plug"} {
 						var fi FileInfo
 						if path != "" {
@@ -90,8 +90,29 @@ func TestVerifReplayC20(t *testing.T) {
 				}
 			}
 		}
-		if want := "::error file=" + path + pos + "::" + a.Message() + suffix; buf.String() != want {
+		// github-actions: path, message and plugin name are data of a workflow command (escapeData of actions/toolkit)
+		ghaSuffix := ""
+		if a.PluginName() != "" {
+			ghaSuffix = " (" + vaGhaEscape(a.PluginName()) + ")"
+		}
+		if want := "::error file=" + vaGhaEscape(path) + pos + "::" + vaGhaEscape(a.Message()) + ghaSuffix; buf.String() != want {
 			report("%s: github-actions format %q, want %q", desc, buf.String(), want)
+		}
+		// a record is ONE workflow command on ONE line, whatever the message text
+		// (printFileAnnotationAsGithubActions#post[one-line-per-record])
+		if n := strings.Count(buf.String(), "\n"); n != 0 {
+			report("%s: the github-actions record spans %d lines: %q", desc, n+1, buf.String())
+		}
+		lineBuf := bytes.NewBuffer(nil)
+		_ = printAsGithubActions(lineBuf, []FileAnnotation{a})
+		if lines := strings.Split(strings.TrimSuffix(lineBuf.String(), "\n"), "\n"); len(lines) != 1 {
+			commands := 0
+			for _, l := range lines {
+				if strings.HasPrefix(l, "::") {
+					commands++
+				}
+			}
+			report("%s: --error-format=github-actions prints 1 annotation as %d lines holding %d workflow commands: %q", desc, len(lines), commands, lineBuf.String())
 		}
 		buf.Reset()
 		_ = printFileAnnotationAsJSON(buf, a)
@@ -139,6 +160,12 @@ func TestVerifReplayC20(t *testing.T) {
 	if found == 0 {
 		fmt.Printf("VERIF-REPLAY no failing input found for %s (%d annotations, all formats)\n", fn, len(anns))
 	}
+}
+
+func vaGhaEscape(s string) string {
+	s = strings.ReplaceAll(s, "%", "%25")
+	s = strings.ReplaceAll(s, "\r", "%0D")
+	return strings.ReplaceAll(s, "\n", "%0A")
 }
 
 func vaDocCompare(a, b FileAnnotation) int {
